@@ -592,6 +592,11 @@ impl Ctx {
         if self.is_replay() || self.violated() {
             return;
         }
+        if std::env::var("VERIF_NO_FUZZ").is_ok() {
+            // tools/run_on_tree.sh (mutant / seeded-change runs) does not rebuild the fuzz crate for the scratch tree
+            println!("  [{}] {sub}: skipped (VERIF_NO_FUZZ)", self.property);
+            return;
+        }
         let t0 = Instant::now();
         let bin = self.root.join("fuzz/target/x86_64-unknown-linux-gnu/release").join(target);
         if !bin.exists() {
